@@ -120,6 +120,32 @@ def run(tier, rep):
                     if msg is not None and (ismsm or njudged < (2 if quick else 8)):
                         njudged += 1
                         corp.add_message(raw[3:-3], msg, m["labelmsm_"], lbl=True, ident="slice", kind=f"v{v}")
+    # readers with different options ALIVE AT THE SAME TIME over copies of one stream, drained
+    # round-robin: every reader must return what it returns when run alone (options are per reader)
+    import io as _io
+
+    from pyrtcm import RTCMReader
+
+    for data, items, g in groups[: (3 if quick else 20)]:
+        keys = list(g)
+        rds = {k: RTCMReader(_io.BytesIO(data), validate=k[0], parsed=k[1], quitonerror=0, labelmsm=k[3]) for k in keys}
+        outs = {k: [] for k in keys}
+        live = set(keys)
+        while live:
+            for k in list(live):
+                r, p = rds[k].read()
+                if r is None and p is None:
+                    live.discard(k)
+                else:
+                    outs[k].append((bytes(r), None if p is None else str(p)))
+        for k in keys:
+            if k[2] == 2:
+                continue      # (raise mode runs are not comparable with the ignore-mode readers used here)
+            alone = [(bytes(r), None if p is None else str(p)) for r, p in tr.results[g[k]]]
+            if outs[k] != alone:
+                rep.reject("ReadersIndependent", {"engine": "framer", "validate": k[0], "parsed": k[1], "labelmsm": k[3]},
+                           {"stream_hex": data.hex(), "options": {"validate": k[0], "parsed": k[1], "labelmsm": k[3]},
+                            "alone": len(alone), "interleaved": len(outs[k])})
     dv = corp.judge()
     for key, a, b in corp.conflicts:
         rep.reject("ValidateOffDecodesSame:BandLabelInconsistent", {"engine": "framer+decode", "gnss": key[1], "sigid": key[2]}, {"labels": [a, b], "key": list(key)})
